@@ -11,6 +11,7 @@ import (
 	"net"
 	"net/http"
 	"net/http/httptest"
+	"os"
 	"path/filepath"
 	"runtime/debug"
 	"strconv"
@@ -519,4 +520,60 @@ func (e *env) snapshot() observe.State {
 	return observe.Snapshot(e.r.TS, filepath.Join(e.r.Dir, "data", "teamserver.db"), filepath.Join(e.r.Dir, "data", "loot"))
 }
 
-func waitTCP(addr string) bool { return rig.WaitTCP(addr, 5*time.Second) }
+// waitTCP: the port accepts connections AND every listening socket on it is this process's.
+func waitTCP(addr string) bool {
+	if !rig.WaitTCP(addr, 5*time.Second) {
+		return false
+	}
+	_, port, err := net.SplitHostPort(addr)
+	if err != nil {
+		return false
+	}
+	ours, foreign := portOwnership(port)
+	return ours > 0 && foreign == 0
+}
+
+// portOwnership reads the kernel's socket tables: how many listening TCP sockets on that
+// port belong to this process and how many to others. Several workers (and other checks)
+// run on the same machine; a request answered by somebody else's listener says nothing
+// about the code under test.
+func portOwnership(port string) (ours, foreign int) {
+	p, err := strconv.Atoi(port)
+	if err != nil {
+		return 0, 0
+	}
+	mine := map[string]bool{}
+	if ents, err := os.ReadDir("/proc/self/fd"); err == nil {
+		for _, en := range ents {
+			if t, err := os.Readlink("/proc/self/fd/" + en.Name()); err == nil && strings.HasPrefix(t, "socket:[") {
+				mine[strings.TrimSuffix(strings.TrimPrefix(t, "socket:["), "]")] = true
+			}
+		}
+	}
+	for _, tbl := range []string{"/proc/net/tcp", "/proc/net/tcp6"} {
+		b, err := os.ReadFile(tbl)
+		if err != nil {
+			continue
+		}
+		for _, ln := range strings.Split(string(b), "\n")[1:] {
+			f := strings.Fields(ln)
+			if len(f) < 10 || f[3] != "0A" {
+				continue
+			}
+			i := strings.LastIndexByte(f[1], ':')
+			if i < 0 {
+				continue
+			}
+			lp, err := strconv.ParseUint(f[1][i+1:], 16, 32)
+			if err != nil || int(lp) != p {
+				continue
+			}
+			if mine[f[9]] {
+				ours++
+			} else {
+				foreign++
+			}
+		}
+	}
+	return
+}
